@@ -11,6 +11,7 @@ import (
 	"runtime"
 	"time"
 
+	_ "github.com/evanphx/json-patch/v5/zzverif/cli"
 	_ "github.com/evanphx/json-patch/v5/zzverif/codec"
 	"github.com/evanphx/json-patch/v5/zzverif/sim"
 	"verif.local/simrt"
